@@ -70,9 +70,35 @@ def call_outcome(func, *args):
         raise
     except RecursionError as e:
         return ('raised', 'RecursionError: ' + str(e)[:80])
+    except Exception as e:  # noqa
+        return ('raised', f'{type(e).__name__}: {str(e)[:160]}')
     except BaseException as e:  # noqa
+        if type(e).__name__ == '_Deadline':
+            raise
         return ('raised', f'{type(e).__name__}: {str(e)[:160]}')
     return ('value', norm(r))
+
+
+def call_with_deadline(func, args, seconds=5):
+    """call_outcome under a wall-clock alarm (main thread only): a call that
+    does not return within `seconds` is reported as ('raised', 'Timeout...')
+    - used only for inputs whose correct answer is immediate."""
+    import signal
+
+    class _Deadline(BaseException):
+        pass
+
+    def on_alarm(signum, frame):
+        raise _Deadline()
+    old = signal.signal(signal.SIGALRM, on_alarm)
+    signal.alarm(seconds)
+    try:
+        return call_outcome(func, *args)
+    except _Deadline:
+        return ('raised', f'Timeout: no result within {seconds} s')
+    finally:
+        signal.alarm(0)
+        signal.signal(signal.SIGALRM, old)
 
 
 # -- function-table recorder -------------------------------------------------
